@@ -77,8 +77,7 @@ Definition kind_priority (k : okind) : Z :=
 
 (* ---------- helpers on operand token lists ---------- *)
 
-Definition lower (c : Z) : Z := if is_upper c then c + 32 else c.
-Definition str_eqb_ci (a b : str) : bool := str_eqb (map lower a) (map lower b).
+(* [lower], [str_eqb_ci] and [reg_mem] live in Subst.v *)
 
 Definition otok_eqb (a b : otok) : bool :=
   match a, b with
@@ -134,7 +133,7 @@ Fixpoint expr_labels (e : expr) : list str :=
   | EFun _ a => expr_labels a
   | EBin _ a b => expr_labels a ++ expr_labels b
   end.
-Definition mentions_register (regs : list str) (e : expr) : bool := existsb (fun n => mem n regs) (expr_labels e).
+Definition mentions_register (regs : list str) (e : expr) : bool := existsb (fun n => reg_mem n regs) (expr_labels e).
 
 (* outcome of trying one operand alternative on one operand text *)
 Record matched := {
